@@ -283,7 +283,11 @@ def _file_may_match(
                     return False
 
             elif expr.op == FilterOp.NE:
-                # For inequality: can only prune if entire file has same value
+                # For inequality: can only prune if entire file has same value.
+                # Float bounds cannot prove that: min/max skip NaN rows, and
+                # NaN != value is true, so such a file may still match.
+                if isinstance(file_min, float) or isinstance(file_max, float):
+                    continue
                 if file_min == file_max == expr.value:
                     return False
 
